@@ -12,9 +12,20 @@
 (* validator computes.  The effect of a transaction depends on              *)
 (* CheckWitness(payer) (smartcontract.checkAccountAddress reads the signer  *)
 (* addresses) for the kinds in NeedsWitness.                                *)
-(* Actions: Seal(b) -- A validates and seals block b and both nodes execute *)
-(* it (ExecuteBlock / AddBlock).  The digest of a node is the sequence of   *)
-(* per-transaction outcomes (it stands for state root, write set, events).  *)
+(* Actions: Seal(b, p) -- A validates and seals block b and both nodes      *)
+(* execute it.  A is a consensus member (ExecuteBlock + SubmitBlock of its  *)
+(* own block); B ingests the block through the path p chosen per block:     *)
+(*   "exec-submit"       ExecuteBlock + SubmitBlock (another member)        *)
+(*   "addblock"          AddBlock only (block without a preceding header)   *)
+(*   "headers-addblock"  AddHeaders, then AddBlock (p2p header-first sync): *)
+(*                       the only path on which the node's header index     *)
+(*                       knows the block while it is being executed.        *)
+(* Transactions of the kinds in EnvKinds read the execution environment     *)
+(* (current block hash, height, timestamp, transaction hash, header) and    *)
+(* publish what they read, so every environment field becomes part of the   *)
+(* digest.  By design the environment is a function of the BLOCK only.      *)
+(* The digest of a node is the sequence of per-transaction outcomes (it     *)
+(* stands for state root, write set, events).                               *)
 (* Property: Agreement.                                                     *)
 (***************************************************************************)
 EXTENDS Naturals, Sequences, FiniteSets, TLC
@@ -31,6 +42,11 @@ CONSTANTS Kinds,          \* transaction kinds
                           \* (process history); FALSE = design: it is reloaded from the committed state at the block's start
           MaxTx,          \* transactions per block
           MaxBlocks,
+          EnvKinds,       \* the kinds whose effect is what they read from the execution environment of their block
+          Paths,          \* the ingestion paths node B may take for a block (node A: always ExecuteBlock + SubmitBlock)
+          EnvFromIndex,   \* named deviation: TRUE = the environment (current block hash) is looked up in the NODE's header
+                          \* index, which knows the block being executed only on the header-first path; FALSE = design and
+                          \* code as is: it is taken from the block being executed
           LazyFromRaw     \* named deviation: TRUE = code as is (B hashes the raw script); FALSE = design intent (B derives
                           \* the addresses like the validator does)
 
@@ -42,7 +58,7 @@ VARIABLES digestA, digestB,
 vars == <<digestA, digestB, param, gA, gB, nrestart, act>>
 view == <<digestA, digestB, param, gA, gB, nrestart>>
 
-Tx == {t \in [kind : Kinds, sv : Variants] : t.kind = ParamKind => t.sv = CHOOSE v \in Variants : TRUE}
+Tx == {t \in [kind : Kinds, sv : Variants] : t.kind \in EnvKinds \cup {ParamKind} => t.sv = CHOOSE v \in Variants : TRUE}
 RECURSIVE SeqsUpTo(_, _)
 SeqsUpTo(T, n) == IF n = 0 THEN {<<>>} ELSE LET P == SeqsUpTo(T, n - 1) IN P \cup {Append(s, t) : s \in {q \in P : Len(q) = n - 1}, t \in T}
 BlocksOf == SeqsUpTo(Tx, MaxTx) \ {<<>>}
@@ -51,30 +67,35 @@ BlocksOf == SeqsUpTo(Tx, MaxTx) \ {<<>>}
 WitnessA(tx) == TRUE
 WitnessB(tx) == (tx.sv \in SameAddr) \/ ~LazyFromRaw
 \* lvl: the gas price level of the table the node executes the block with
-Outcome(tx, w, lvl) == IF tx.kind \in NeedsWitness /\ ~w THEN <<"failed", 0>>
+\* env: 1 = the environment of the block itself, 0 = what a header index that does not know the block answers
+HeaderKnown(p) == p = "headers-addblock"
+EnvSeen(p) == IF EnvFromIndex /\ ~HeaderKnown(p) THEN 0 ELSE 1
+Outcome(tx, w, lvl, env) == IF tx.kind \in NeedsWitness /\ ~w THEN <<"failed", 0>>
+                       ELSE IF tx.kind \in EnvKinds THEN <<"env", env>>
                        ELSE IF tx.kind \in FeeKinds THEN <<"applied", lvl>> ELSE <<"applied", 0>>
 LevelOf(g) == IF StaleGasTable THEN g ELSE param       \* executeBlock: refreshGlobalParam, then the per-block snapshot
-ExecA(b) == [i \in 1..Len(b) |-> Outcome(b[i], WitnessA(b[i]), LevelOf(gA))]
-ExecB(b) == [i \in 1..Len(b) |-> Outcome(b[i], WitnessB(b[i]), LevelOf(gB))]
+ExecA(b) == [i \in 1..Len(b) |-> Outcome(b[i], WitnessA(b[i]), LevelOf(gA), EnvSeen("exec-submit"))]
+ExecB(b, p) == [i \in 1..Len(b) |-> Outcome(b[i], WitnessB(b[i]), LevelOf(gB), EnvSeen(p))]
 HasParam(b) == \E i \in 1..Len(b) : b[i].kind = ParamKind
 
 Init == /\ digestA = <<>> /\ digestB = <<>> /\ param = 0 /\ gA = 0 /\ gB = 0 /\ nrestart = 0
         /\ act = [name |-> "Init"]
-Seal(b) == /\ Len(digestA) < MaxBlocks
+Seal(b, p) ==
+           /\ Len(digestA) < MaxBlocks
            /\ digestA = digestB            \* a diverged syncing node refuses the next block (state root mismatch)
            /\ digestA' = Append(digestA, ExecA(b))
-           /\ digestB' = Append(digestB, ExecB(b))
+           /\ digestB' = Append(digestB, ExecB(b, p))
            /\ (HasParam(b) => param < MaxParam)
            /\ param' = IF HasParam(b) THEN param + 1 ELSE param        \* committed with the block, used from the next one
            /\ gA' = param /\ gB' = param                                \* refreshGlobalParam loaded the committed values
            /\ UNCHANGED nrestart
-           /\ act' = [name |-> "Seal", block |-> b, agree |-> (ExecA(b) = ExecB(b)), outA |-> ExecA(b), outB |-> ExecB(b)]
+           /\ act' = [name |-> "Seal", block |-> b, path |-> p, agree |-> (ExecA(b) = ExecB(b, p)), outA |-> ExecA(b), outB |-> ExecB(b, p)]
 \* node B's process exits and a fresh process reopens its data directory: process globals are back to the defaults
 RestartB == /\ nrestart < MaxRestart /\ Len(digestA) >= 1 /\ Len(digestA) < MaxBlocks /\ digestA = digestB
             /\ gB' = 0 /\ nrestart' = nrestart + 1
             /\ UNCHANGED <<digestA, digestB, param, gA>>
             /\ act' = [name |-> "RestartB"]
-Next == (\E b \in BlocksOf : Seal(b)) \/ RestartB
+Next == (\E b \in BlocksOf, p \in Paths : Seal(b, p)) \/ RestartB
 Spec == Init /\ [][Next]_vars
 
 Agreement == digestA = digestB
